@@ -31,8 +31,8 @@ def run(spec):
   cls = ['geos:%d' % len(sp.geos)]
   det = L.describe(case)
   viol = []
-  ex = L.run_search(case, 'exhaustive_search')
-  gr = L.run_search(case, 'greedy_search')
+  ex = L.run_search(case, 'exhaustive_search', history=spec.get('history'))
+  gr = L.run_search(case, 'greedy_search', history=spec.get('history'))
   cls += ['exhaustive:%s' % (ex[0] if ex[0] != 'ok' else ('designs' if ex[1] else 'empty')),
           'greedy:%s' % (gr[0] if gr[0] != 'ok' else ('designs' if gr[1] else 'empty'))]
   if gr[0] != 'ok' or sp.reject:
